@@ -21,8 +21,8 @@ TRUSTED = [
 MODES = {"files": [], "check": ["--check"], "stdout": ["--emit", "stdout"]}
 UNF = "pub fn  %s( ){}\n"
 FAULT_TEXT = {"lexer": "pub fn f() { let s = \"abc; }\n", "unclosed": "pub fn f() {\n    let x = (1;\n",
-              "blockcomment": "pub fn f() { /* abc\n"}
-LEX_FATAL = ("lexer", "blockcomment")     # rustc raises FatalError while creating the parser
+              "blockcomment": "pub fn f() { /* abc\n", "rawstring": "pub fn f() { let s = r#\"abc; }\n"}
+LEX_FATAL = ("lexer", "blockcomment", "rawstring")     # rustc raises FatalError while creating the parser (caught since the repair of ParserBuilder::build)
 A_STYLES = ["file", "moddir", "pathattr"]
 B_STYLES = ["file", "moddir"]
 
@@ -186,7 +186,7 @@ def run(tier, seed, replay):
     for k in ("lexer", "unclosed"):
         for p in ("root", "first", "last", "grand", "cfgif"):
             kinds.append((k, p))
-    kinds += [("blockcomment", "root"), ("blockcomment", "first")]
+    kinds += [("blockcomment", "root"), ("blockcomment", "first"), ("rawstring", "root"), ("rawstring", "grand")]
     for k in ("missing", "ambiguous"):
         for p in ("first", "last", "grand", "cfgif"):
             kinds.append((k, p))
@@ -198,7 +198,7 @@ def run(tier, seed, replay):
             if kind == "ambiguous" and position in ("first", "grand") and a_style == "pathattr":
                 a_style = "file"        # a #[path] module has a single candidate
             for mode in MODES:
-                orders = ["bad_first", "ok_first"] if kind in ("bad_toml", "lexer", "unclosed") and position == "root" else ["bad_first"]
+                orders = ["bad_first", "ok_first"] if kind in ("bad_toml", "lexer", "unclosed", "blockcomment") and position == "root" else ["bad_first"]
                 for order in orders:
                     cases.append({"kind": kind, "position": position, "a_style": a_style, "b_style": b_style, "mode": mode, "order": order})
     seen = set()
@@ -268,13 +268,15 @@ def run(tier, seed, replay):
         failing = c["kind"] != "none"
         if failing:
             nontrivial.add(common.case_hash(c))
+        for ph in ("plain", "trace"):
+            if ph in o2 and o2[ph]["rc"] not in (0, 1):
+                viol("exit_status_outside_01", dict(rp, phase=ph, rc=o2[ph]["rc"]), "fault %s at %s: the process ends with status %d" % (c["kind"], c["position"], o2[ph]["rc"]))
         if failing:
             if o["after_k"] != o["before_k"]:
                 ch = sorted(k for k in set(o["after_k"]) | set(o["before_k"]) if o["after_k"].get(k) != o["before_k"].get(k))
                 viol("failing_root_modified", dict(rp, changed=ch), "files of the failing root changed: %s" % ch)
             if o["rc"] != 1:
-                key = "disabled_formatting_hides_syntax_error" if c["kind"] == "disabled" else \
-                      "root_lexer_fatal_exit101" if (c["kind"] in LEX_FATAL and c["position"] == "root" and o["rc"] == 101) else "failure_exit_status"
+                key = "disabled_formatting_hides_syntax_error" if c["kind"] == "disabled" else "failure_exit_status"
                 viol(key, rp, "fault %s at %s: exit status %d, expected 1" % (c["kind"], c["position"], o["rc"]))
             if not o["err"].strip():
                 key = "disabled_formatting_hides_syntax_error" if c["kind"] == "disabled" else "no_diagnostic"
@@ -293,9 +295,7 @@ def run(tier, seed, replay):
         if c["mode"] != "files" and o["after_o"] != o["before_o"]:
             viol("healthy_root_modified", rp, "--%s modified the healthy root" % c["mode"])
         if not done:
-            key = "bad_local_toml_aborts_loop" if (c["kind"] == "bad_toml" and c["order"] == "bad_first") else \
-                  "root_lexer_fatal_exit101" if (c["kind"] in LEX_FATAL and c["position"] == "root" and c["order"] == "bad_first" and o["rc"] == 101) else \
-                  "healthy_root_not_formatted"
+            key = "bad_local_toml_aborts_loop" if (c["kind"] == "bad_toml" and c["order"] == "bad_first") else "healthy_root_not_formatted"
             viol(key, rp, "the healthy root named %s the failing one (%s) was not formatted" % ("after" if c["order"] == "bad_first" else "before", c["kind"]))
         if not failing and o["rc"] != (1 if c["mode"] == "check" else 0):
             viol("healthy_exit_status", rp, "no fault: exit status %d" % o["rc"])
@@ -317,7 +317,7 @@ def run(tier, seed, replay):
         def info(p, outcome="POk"):
             return "(MkInfo %d %s false false false (MkFres flags_zero %s false))" % (num[p], outcome, hd)
 
-        oc = {"lexer": "PLexFatal", "blockcomment": "PLexFatal", "unclosed": "PFatal", "missing": "PMissing", "ambiguous": "PAmbiguous", "disabled": "PLexFatal"}
+        oc = {"lexer": "PLexFatal", "blockcomment": "PLexFatal", "rawstring": "PLexFatal", "unclosed": "PFatal", "missing": "PMissing", "ambiguous": "PAmbiguous", "disabled": "PLexFatal"}
         def out_of(position):
             return oc[c["kind"]] if (c["kind"] in oc and c["position"] == position) else "POk"
         P = {k: os.path.join(kd, v) for k, v in pos.items()}
@@ -347,7 +347,7 @@ def run(tier, seed, replay):
                 fail_ev = [2, None]
             elif "failed to resolve mod" in err:
                 fail_ev = [6, None]
-            elif c["kind"] in ("lexer", "unclosed", "blockcomment") and c["position"] == "root" and re.search(r"\berror\b", err):
+            elif c["kind"] in ("lexer", "unclosed", "blockcomment", "rawstring") and c["position"] == "root" and re.search(r"\berror\b", err):
                 fail_ev = [4, None]
             if fail_ev is not None:
                 per[t["bad_root"]].append(fail_ev)
@@ -406,7 +406,7 @@ def run(tier, seed, replay):
         "evaluations": len(cases) * (2 if have_strace else 1),
         "distinct_nontrivial": len(nontrivial),
         "exhaustive": tier != "quick",
-        "rule": "fault kinds {unterminated string, unclosed delimiter} x position {root, first child, last child, grandchild, inside cfg_if!}, unterminated block comment x {root, first child}, {missing module file, both x.rs and x/mod.rs} x {first, last, grandchild, cfg_if}, bad rustfmt.toml, required_version mismatch, missing path, directory as input, disable_all_formatting with a syntax error, no fault; module layouts a in {a.rs, a/mod.rs, #[path]} x b in {b.rs, b/mod.rs} (quick: one random layout per fault, thorough: all); x {files, --check, --emit stdout}; a healthy second root (2 files) on the same command line, named after the failing one (and before it for bad rustfmt.toml / root syntax error); every run twice: plain (oracle: sha256 of every file, exit status, stderr, healthy root formatted, no partial file) and under strace --verbose (event trace). No input known that makes the rustc parser panic: PPanic is not exercised on the implementation. non-trivial = a fault is injected",
+        "rule": "fault kinds {unterminated string, unclosed delimiter} x position {root, first child, last child, grandchild, inside cfg_if!}, unterminated block comment x {root, first child}, unterminated raw string x {root, grandchild}, {missing module file, both x.rs and x/mod.rs} x {first, last, grandchild, cfg_if}, bad rustfmt.toml, required_version mismatch, missing path, directory as input, disable_all_formatting with a syntax error, no fault; module layouts a in {a.rs, a/mod.rs, #[path]} x b in {b.rs, b/mod.rs} (quick: one random layout per fault, thorough: all); x {files, --check, --emit stdout}; a healthy second root (2 files) on the same command line, named after the failing one (and before it for bad rustfmt.toml / root syntax error); every run twice: plain (oracle: sha256 of every file, exit status, stderr, healthy root formatted, no partial file) and under strace --verbose (event trace). No input known that makes the rustc parser panic: PPanic is not exercised on the implementation. non-trivial = a fault is injected",
         "samples": cases[:2] + cases[len(cases) // 2:len(cases) // 2 + 2] + cases[-1:],
         "correspondence_disagreements": len(disagreements),
         "traces_validated_against_impl": validated,
